@@ -607,34 +607,37 @@ theorem visitKeys_dels_subset {σ : Type} (f : σ → Blk → σ × Bool) : ∀ 
       · exact List.mem_cons_of_mem _ (visitKeys_dels_subset f ks _ x h)
     · exact List.mem_cons_of_mem _ (visitKeys_dels_subset f ks _ x h)
 
-/-- invariant-style specification of the callback fold:
+/-- invariant-style specification of the callback fold over keys that all satisfy `A`:
     `P` is kept by every call; a `true` answer for `x` establishes `Q x`; `Q` is stable;
     blocks for which the callback must answer `true` under `P` (`G`) are all deleted. -/
-theorem visitKeys_spec {σ : Type} (f : σ → Blk → σ × Bool) (P : σ → Prop) (Q : Blk → σ → Prop) (G : Blk → Prop)
-    (hstep : ∀ s x, P s → P (f s x).1)
-    (hQ : ∀ s x, P s → (f s x).2 = true → Q x (f s x).1)
-    (hmono : ∀ s x y, P s → Q y s → Q y (f s x).1)
-    (hG : ∀ s x, P s → G x → (f s x).2 = true) :
-    ∀ (ks : List Blk) (s : σ), P s →
+theorem visitKeys_spec {σ : Type} (f : σ → Blk → σ × Bool) (A : Blk → Prop) (P : σ → Prop) (Q : Blk → σ → Prop)
+    (G : Blk → Prop)
+    (hstep : ∀ s x, A x → P s → P (f s x).1)
+    (hQ : ∀ s x, A x → P s → (f s x).2 = true → Q x (f s x).1)
+    (hmono : ∀ s x y, A x → P s → Q y s → Q y (f s x).1)
+    (hG : ∀ s x, A x → P s → G x → (f s x).2 = true) :
+    ∀ (ks : List Blk) (s : σ), (∀ x ∈ ks, A x) → P s →
       P (visitKeys f s ks).1 ∧ (∀ x ∈ (visitKeys f s ks).2, Q x (visitKeys f s ks).1) ∧
       (∀ y, Q y s → Q y (visitKeys f s ks).1) ∧ (∀ x ∈ ks, G x → x ∈ (visitKeys f s ks).2)
-  | [], s, hs => by simp [visitKeys, hs]
-  | k :: ks, s, hs => by
-    obtain ⟨i1, i2, i3, i4⟩ := visitKeys_spec f P Q G hstep hQ hmono hG ks (f s k).1 (hstep s k hs)
+  | [], s, _, hs => by simp [visitKeys, hs]
+  | k :: ks, s, hA, hs => by
+    have hk : A k := hA k (by simp)
+    obtain ⟨i1, i2, i3, i4⟩ := visitKeys_spec f A P Q G hstep hQ hmono hG ks (f s k).1
+      (fun x hx => hA x (by simp [hx])) (hstep s k hk hs)
     simp only [visitKeys]
     refine ⟨i1, ?_, ?_, ?_⟩
     · intro x hx
       split at hx
       · rename_i hdel
         rcases List.mem_cons.mp hx with rfl | hx
-        · exact i3 _ (hQ s _ hs hdel)
+        · exact i3 _ (hQ s _ hk hs hdel)
         · exact i2 x hx
       · exact i2 x hx
     · intro y hy
-      exact i3 y (hmono s k y hs hy)
+      exact i3 y (hmono s k y hk hs hy)
     · intro x hx hg
       rcases List.mem_cons.mp hx with rfl | hx
-      · simp [hG s _ hs hg]
+      · simp [hG s _ hk hs hg]
       · split
         · exact List.mem_cons_of_mem _ (i4 x hx hg)
         · exact i4 x hx hg
